@@ -19,10 +19,14 @@ def main():
     title = re.sub(r'\s+', ' ', title)[:110]
     conf = m.get('demonstration_confirmed') or {}
     ok = (str(conf.get('demo_exit_clean')) == '0' and str(conf.get('demo_exit_patched')) not in ('0', 'None'))
+    b = m.get('pinned_baseline_rerun_here') or {}
+    bl = ('%s pass' % b['passed'] if b.get('passed') is not None and not b.get('baseline_tests_failed')
+          else (b.get('summary') or '?'))
     rows.append((m['seed'], ', '.join(os.path.basename(x) for x in m['files_changed']), title,
-                 'yes' if ok else '?', ', '.join(m['caught_by']) or '-', ', '.join(m['not_caught_by']) or '-'))
-  lines = ['| seed | file(s) changed | what (from the seeder\'s notes) | demo confirmed | caught by | run, silent |',
-           '|---|---|---|---|---|---|']
+                 'yes' if ok else '?', bl, ', '.join(m['caught_by']) or '-',
+                 ', '.join(m['not_caught_by']) or '-'))
+  lines = ['| seed | file(s) changed | what (from the seeder\'s notes) | demo confirmed | pinned baseline with the change | caught by | run, silent |',
+           '|---|---|---|---|---|---|---|']
   for r in rows:
     lines.append('| ' + ' | '.join(x.replace('|', '/') for x in r) + ' |')
   table = '\n'.join(lines)
@@ -36,9 +40,9 @@ def main():
   if a in s:
     s = s[:s.index(a) + len(a)] + '\n' + table + '\n' + s[s.index(b):]
     open(p, 'w').write(s)
-  caught_own = sum(1 for r in rows if r[0].split('-')[0] in r[4].split(', '))
+  caught_own = sum(1 for r in rows if r[0].split('-')[0] in r[5].split(', '))
   print("%d seeds, %d caught by the check of their own property, %d caught by some check" % (
-      len(rows), caught_own, sum(1 for r in rows if r[4] != '-')))
+      len(rows), caught_own, sum(1 for r in rows if r[5] != '-')))
 
 
 if __name__ == '__main__':
